@@ -169,6 +169,7 @@ func main() {
 	seen := map[string]bool{}
 	startKeys := map[string]string{} // base id -> key of the state the Core starts in
 	baseEdits, baseStates := 0, 0
+	taintedNotReproduced := 0
 	transitions := 0
 	cores := 0
 	undos := 0
@@ -209,7 +210,12 @@ func main() {
 		b0, _ := json.Marshal(r0)
 		b1, _ := json.Marshal(r1)
 		if string(b0) != string(b1) {
-			fail("nondeterministic: two expansions of the initial state differ")
+			if len(r0.Viols) == 0 && len(r1.Viols) == 0 {
+				fail("nondeterministic: two expansions of the initial state differ")
+			}
+			// a harness error is for differences without a verdict: here the property is violated, and what the broken
+			// edit leaves behind is not a function of the request (e.g. fields decoded in map order before a refusal)
+			r.Note("the two expansions of the initial state differ and report violations: the outcome of a violating edit is not deterministic")
 		}
 		startKeys[root.base.ID] = r0.StartKey
 		root.implKey = r0.NodeKey
@@ -386,6 +392,12 @@ func main() {
 					fail("bad worker answer: %v", err)
 				}
 			}
+			if n.taint != "" && (strings.Contains(jr.HarnessError, "nondeterministic") || (jr.HarnessError == "" && jr.NodeKey != n.implKey)) {
+				// the history already violated (reported under its key) and does not lead to the same state twice:
+				// there is no state to apply one more edit to
+				taintedNotReproduced++
+				continue
+			}
 			if jr.HarnessError != "" {
 				fail("base %s, history %v: %s", n.base.ID, n.prefix, jr.HarnessError)
 			}
@@ -513,6 +525,7 @@ func main() {
 	r.Set("jobs_executed_to_attribute_worker_deaths", crashFollowUps)
 	r.Set("worker_deaths_not_reproduced", crashesNotReproduced)
 	r.Set("jobs_reexecuted_after_an_environment_error", harnessRetries)
+	r.Set("jobs_skipped_violating_history_not_reproducible", taintedNotReproduced)
 	r.Note("informational, not a verdict: %d of %d reads issued right after a 200 answer (before the reload was known to be complete) "+
 		"differed from the read after quiescence", stale, early)
 	var baseIDs []string
